@@ -11,13 +11,17 @@
    stream; entries inside a solid stream are stored without their own context).
    The KDF itself, the PHC string codec of the `password-hash` crate and the parameter validity
    rules of the KDF crates are Section variables; executable stand-ins follow the section:
-   a real PHC printer/parser for the two formats in use and a KDF that returns the *term*
-   KDF(alg|version|params|salt|password), so that running the model shows exactly what is fed
-   to the KDF. *)
+   the PHC printer/parser of password-hash 0.5 (PasswordHash::new / Display: identifier, value,
+   salt and hash rules, length limits), the rules of pbkdf2 0.12 / argon2 0.5
+   Params::try_from(&PasswordHash) and of their hashing front ends, and a KDF that returns the
+   *term* KDF(alg|version|params|salt|password), so that running the model shows exactly what
+   is fed to the KDF. *)
 From PNA Require Import Base Codec.
 
 (* ---- PHC records ----------------------------------------------------------------------- *)
-Record phc := { ph_alg : bytes; ph_version : option N; ph_params : list (bytes * N);
+(* PasswordHash: the parameter VALUES are text (ParamsString keeps the string; the KDF crates
+   interpret them), the version is a number, salt and hash are held decoded *)
+Record phc := { ph_alg : bytes; ph_version : option N; ph_params : list (bytes * bytes);
                 ph_salt : option bytes; ph_hash : option bytes }.
 
 (* what a writer may ask for (entry/options.rs HashAlgorithmParams; None = the crate default) *)
@@ -32,14 +36,20 @@ Definition alg_name (h : hash_alg) : bytes :=
    argon2 Params prints m, t, p and the version 19 *)
 Definition alg_version (h : hash_alg) : option N :=
   match h with Pbkdf2Sha256 _ => None | Argon2Id _ _ _ => Some 19 end.
-Definition alg_params (h : hash_alg) : list (bytes * N) :=
+Definition alg_params_n (h : hash_alg) : list (bytes * N) :=
   match h with
   | Pbkdf2Sha256 r => [(lit "i", dflt 600000 r); (lit "l", 32)]
   | Argon2Id t m p => [(lit "m", dflt 19456 m); (lit "t", dflt 2 t); (lit "p", dflt 1 p)]
   end.
+(* ParamsString::add_decimal: the value is the decimal text of the number *)
+Definition alg_params (h : hash_alg) : list (bytes * bytes) :=
+  map (fun kv => (fst kv, dec (snd kv))) (alg_params_n h).
 Definition writer_record (h : hash_alg) (salt : bytes) (hash : option bytes) : phc :=
   {| ph_alg := alg_name h; ph_version := alg_version h; ph_params := alg_params h;
      ph_salt := Some salt; ph_hash := hash |}.
+Definition U32 : N := 2 ^ 32.
+(* the parameters of the Rust type are u32; a choice outside that range is not a value of the type *)
+Definition fits_u32 (h : hash_alg) : bool := forallb (fun kv => N.ltb (snd kv) U32) (alg_params_n h).
 
 Definition encrypted_b (e : encryption) : bool := match e with ENo => false | _ => true end.
 Definition SALT_LEN : nat := 16.
@@ -48,9 +58,10 @@ Definition IV_LEN : nat := 16.
 Section Plumbing.
   Variable key : Type.
   (* the key-derivation function: algorithm, version, parameters, salt BYTES, password bytes *)
-  Variable kdf : bytes -> option N -> list (bytes * N) -> bytes -> bytes -> key.
-  (* the parameter / salt rules of the KDF crates *)
-  Variable kdf_valid : bytes -> option N -> list (bytes * N) -> bytes -> bool.
+  Variable kdf : bytes -> option N -> list (bytes * bytes) -> bytes -> bytes -> key.
+  (* the parameter / salt rules of the KDF crates (Params::try_from(&PasswordHash) and the hashing
+     front ends): algorithm, version, parameters, salt bytes, and the hash of the record if it has one *)
+  Variable kdf_valid : bytes -> option N -> list (bytes * bytes) -> bytes -> option bytes -> bool.
   (* algorithms verify_password dispatches on *)
   Variable alg_supported : bytes -> bool.
   (* the PHC string codec *)
@@ -68,7 +79,7 @@ Section Plumbing.
     let iv := firstn IV_LEN (skipn SALT_LEN tape) in
     let r := writer_record h salt None in
     (* argon2: ParamsBuilder::context fails with InvalidInput; pbkdf2 has no writer-side rule *)
-    if negb (kdf_valid (ph_alg r) (ph_version r) (ph_params r) salt) then Err InvalidInput else
+    if negb (kdf_valid (ph_alg r) (ph_version r) (ph_params r) salt None) then Err InvalidInput else
     Ok ({| ctx_phsf := phc_print r;                                         (* hash taken out before printing *)
            ctx_iv := iv;
            ctx_key := kdf (ph_alg r) (ph_version r) (ph_params r) salt pw;
@@ -85,7 +96,7 @@ Section Plumbing.
       match ph_salt p with
       | None => Err InvalidData
       | Some salt =>
-        if negb (kdf_valid (ph_alg p) (ph_version p) (ph_params p) salt) then Err InvalidData
+        if negb (kdf_valid (ph_alg p) (ph_version p) (ph_params p) salt (ph_hash p)) then Err InvalidData
         else Ok (kdf (ph_alg p) (ph_version p) (ph_params p) salt pw)
       end
     end.
@@ -202,7 +213,7 @@ Fixpoint b64_dec (l : bytes) : option bytes :=
 
 Definition dollar : byte := x24.
 Definition eqsign : byte := x3d.
-Definition show_param (kv : bytes * N) : bytes := fst kv ++ [eqsign] ++ dec (snd kv).
+Definition show_param (kv : bytes * bytes) : bytes := fst kv ++ [eqsign] ++ snd kv.
 (* PasswordHash::to_string *)
 Definition phc_print_x (p : phc) : bytes :=
   [dollar] ++ ph_alg p
@@ -213,21 +224,56 @@ Definition phc_print_x (p : phc) : bytes :=
       | None => []
       end).
 
-Definition parse_param (f : bytes) : option (bytes * N) :=
+(* ---- PasswordHash::new (password-hash 0.5: lib.rs, ident.rs, value.rs, params.rs, salt.rs, output.rs) ---- *)
+Definition between (lo hi : N) (b : byte) : bool := N.leb lo (b2n b) && N.leb (b2n b) hi.
+Definition is_digit_b (b : byte) : bool := between 48 57 b.
+(* Ident::new: 1..=32 characters of a-z 0-9 '-' *)
+Definition ident_char (b : byte) : bool := between 97 122 b || between 48 57 b || N.eqb (b2n b) 45.
+Definition ident_ok (s : bytes) : bool := Nat.leb 1 (length s) && Nat.leb (length s) 32 && forallb ident_char s.
+(* Value::new: at most 64 characters of A-Z a-z 0-9 '/' '+' '.' '-' (the empty value is a value) *)
+Definition value_char (b : byte) : bool :=
+  between 65 90 b || between 97 122 b || between 48 57 b
+  || N.eqb (b2n b) 47 || N.eqb (b2n b) 43 || N.eqb (b2n b) 46 || N.eqb (b2n b) 45.
+Definition value_ok (s : bytes) : bool := Nat.leb (length s) 64 && forallb value_char s.
+(* Value::decimal: not empty, digits only, no leading zero unless it is "0", fits u32 *)
+Definition canon_dec (s : bytes) : option N :=
+  match s with
+  | [] => None
+  | c :: r =>
+    if byte_eqb c x30 && (match r with [] => false | _ => true end) then None
+    else match undec s with Some n => if N.ltb n U32 then Some n else None | None => None end
+  end.
+(* Salt::from_b64 looks at the TEXT only: 4..=64 characters of the value alphabet.  It is decoded later, by
+   the KDF front ends (Salt::decode_b64, unpadded base64, canonical) *)
+Definition salt_text_ok (s : bytes) : bool := Nat.leb 4 (length s) && Nat.leb (length s) 64 && forallb value_char s.
+(* Output::decode + Output::new: unpadded base64 of 10..=64 bytes *)
+Definition hash_len_ok (h : bytes) : bool := Nat.leb 10 (length h) && Nat.leb (length h) 64.
+
+(* ParamsString::from_str: at most 127 bytes, `name=value` pairs separated by ','; the names are identifiers, the
+   values are values; a repeated name is not an error here (the KDF crates take the last one) *)
+Definition parse_param (f : bytes) : option (bytes * bytes) :=
   match fields eqsign f with
-  | [k; v] => match undec v with Some n => Some (k, n) | None => None end
+  | [k; v] => if ident_ok k && value_ok v then Some (k, v) else None
   | _ => None
   end.
+Definition parse_params (f : bytes) : option (list (bytes * bytes)) :=
+  if Nat.leb (length f) 127 then all_some (map parse_param (fields comma f)) else None.
 Definition has_eq (f : bytes) : bool := existsb (byte_eqb eqsign) f.
-(* PasswordHash::new on the strings in use (decimal parameter values only) *)
+Definition has_comma (f : bytes) : bool := existsb (byte_eqb comma) f.
+
+(* PasswordHash::parse.  The salt is recorded decoded; a salt text that passes Salt::from_b64 but does not decode
+   (the code finds that out only in the KDF front end, after the dispatch on the algorithm) is recorded as the
+   EMPTY salt, which no text decodes to (a decoded salt has at least 3 bytes) and which the front-end rules
+   (kdf_valid_x) refuse. *)
 Definition phc_parse_x (s : bytes) : option phc :=
   match fields dollar s with
   | [] :: alg :: rest =>
-    match alg with [] => None | _ =>
+    if negb (ident_ok alg) then None else
+    (* `v=<decimal>`: only the field right after the identifier, and only if it has no ',' *)
     let '(ver, rest1) :=
       match rest with
       | (a :: b :: ds) :: r =>
-        if byte_eqb a x76 && byte_eqb b eqsign then (Some (undec ds), r) else (None, rest)
+        if byte_eqb a x76 && byte_eqb b eqsign && negb (has_comma ds) then (Some (canon_dec ds), r) else (None, rest)
       | _ => (None, rest)
       end in
     match ver with
@@ -236,7 +282,7 @@ Definition phc_parse_x (s : bytes) : option phc :=
       let version := match ver with Some (Some v) => Some v | _ => None end in
       let '(params, rest2) :=
         match rest1 with
-        | f :: r => if has_eq f then (all_some (map parse_param (fields comma f)), r) else (Some [], rest1)
+        | f :: r => if has_eq f then (parse_params f, r) else (Some [], rest1)
         | [] => (Some [], rest1)
         end in
       match params with
@@ -244,61 +290,94 @@ Definition phc_parse_x (s : bytes) : option phc :=
       | Some ps =>
         match rest2 with
         | [] => Some {| ph_alg := alg; ph_version := version; ph_params := ps; ph_salt := None; ph_hash := None |}
-        | [salt] =>
-          match b64_dec salt with
-          | Some sb => Some {| ph_alg := alg; ph_version := version; ph_params := ps; ph_salt := Some sb; ph_hash := None |}
-          | None => None
+        | salt :: rest3 =>
+          if negb (salt_text_ok salt) then None else
+          let sb := match b64_dec salt with Some x => x | None => [] end in
+          match rest3 with
+          | [] => Some {| ph_alg := alg; ph_version := version; ph_params := ps; ph_salt := Some sb; ph_hash := None |}
+          | [hash] =>
+            match b64_dec hash with
+            | Some hb => if hash_len_ok hb
+                         then Some {| ph_alg := alg; ph_version := version; ph_params := ps; ph_salt := Some sb; ph_hash := Some hb |}
+                         else None
+            | None => None
+            end
+          | _ => None                                        (* PhcStringTrailingData *)
           end
-        | [salt; hash] =>
-          match b64_dec salt, b64_dec hash with
-          | Some sb, Some hb => Some {| ph_alg := alg; ph_version := version; ph_params := ps; ph_salt := Some sb; ph_hash := Some hb |}
-          | _, _ => None
-          end
-        | _ => None
         end
       end
-    end end
+    end
   | _ => None
   end.
 
+(* ---- hash.rs verify_password: the dispatch ---- *)
 Definition is_argon2 (alg : bytes) : bool :=
   bytes_eqb alg (lit "argon2id") || bytes_eqb alg (lit "argon2i") || bytes_eqb alg (lit "argon2d").
 Definition is_pbkdf2 (alg : bytes) : bool :=
   bytes_eqb alg (lit "pbkdf2-sha256") || bytes_eqb alg (lit "pbkdf2-sha512").
 Definition alg_supported_x (alg : bytes) : bool := is_argon2 alg || is_pbkdf2 alg.
 
-Fixpoint param (k : bytes) (ps : list (bytes * N)) : option N :=   (* the last occurrence wins *)
+(* ---- the KDF crates on a parsed record ---- *)
+Fixpoint param {V : Type} (k : bytes) (ps : list (bytes * V)) : option V :=   (* the LAST occurrence: the builders are overwritten *)
   match ps with
   | [] => None
   | (k', v) :: r => match param k r with Some x => Some x | None => if bytes_eqb k k' then Some v else None end
   end.
-Definition keys_within (allowed : list bytes) (ps : list (bytes * N)) : bool :=
-  forallb (fun kv => existsb (bytes_eqb (fst kv)) allowed) ps.
-Definition U32 : N := 2 ^ 32.
-(* argon2::Params::new, Argon2 salt rule, Version::try_from; pbkdf2 Params::try_from, Output length
-   rule and the key size of the 256-bit ciphers *)
-Definition kdf_valid_x (alg : bytes) (ver : option N) (ps : list (bytes * N)) (salt : bytes) : bool :=
-  forallb (fun kv => N.ltb (snd kv) U32) ps &&
+Definition dec_param (k : bytes) (ps : list (bytes * bytes)) : option N :=
+  match param k ps with Some v => canon_dec v | None => None end.
+Definition b64_param (k : bytes) (ps : list (bytes * bytes)) : bytes :=
+  match param k ps with Some v => (match b64_dec v with Some b => b | None => [] end) | None => [] end.
+(* argon2 Params::try_from: m, t, p decimal; keyid (at most 8 bytes) and data (at most 32 bytes) unpadded base64;
+   any other name is an error *)
+Definition argon2_param_ok (kv : bytes * bytes) : bool :=
+  let k := fst kv in let v := snd kv in
+  if bytes_eqb k (lit "m") || bytes_eqb k (lit "t") || bytes_eqb k (lit "p")
+  then (match canon_dec v with Some _ => true | None => false end)
+  else if bytes_eqb k (lit "keyid") then (match b64_dec v with Some b => Nat.leb (length b) 8 | None => false end)
+  else if bytes_eqb k (lit "data") then (match b64_dec v with Some b => Nat.leb (length b) 32 | None => false end)
+  else false.
+(* pbkdf2 Params::try_from: i, l decimal; any other name is an error *)
+Definition pbkdf2_param_ok (kv : bytes * bytes) : bool :=
+  let k := fst kv in let v := snd kv in
+  if bytes_eqb k (lit "i") || bytes_eqb k (lit "l")
+  then (match canon_dec v with Some _ => true | None => false end)
+  else false.
+Definition hash_is_32 (hash : option bytes) : bool :=
+  match hash with Some hb => Nat.eqb (length hb) 32 | None => true end.
+(* verify_password's guard on EVERY p (a parameter may be repeated), argon2::Params::try_from + Params::new (m >= 8, m >= 8p, t >= 1,
+   1 <= p <= 2^24-1), Version::try_from, the salt rule of Argon2 (8 bytes), the output length = the length of the
+   hash of the record if it has one, else 32;  pbkdf2 Params::try_from (no version; l, if given, is the output
+   length and must be the length of the hash of the record if it has one), Salt::decode_b64;  and the key size
+   of the 256-bit ciphers (the derived key is the whole output).
+   Not described: the allocation probe for m KiB (OutOfMemory on huge m). *)
+Definition kdf_valid_x (alg : bytes) (ver : option N) (ps : list (bytes * bytes)) (salt : bytes) (hash : option bytes) : bool :=
   if is_argon2 alg then
-    let m := dflt 19456 (param (lit "m") ps) in
-    let t := dflt 2 (param (lit "t") ps) in
-    let p := dflt 1 (param (lit "p") ps) in
-    keys_within [lit "m"; lit "t"; lit "p"] ps
+    let m := dflt 19456 (dec_param (lit "m") ps) in
+    let t := dflt 2 (dec_param (lit "t") ps) in
+    let p := dflt 1 (dec_param (lit "p") ps) in
+    forallb (fun kv => if bytes_eqb (fst kv) (lit "p")
+                       then (match canon_dec (snd kv) with Some p1 => N.leb p1 16777215 | None => true end)
+                       else true) ps
+    && forallb argon2_param_ok ps
     && (match ver with None => true | Some v => N.eqb v 16 || N.eqb v 19 end)
     && N.leb 8 m && N.leb (8 * p) m && N.leb 1 t && N.leb 1 p && N.leb p 16777215
     && Nat.leb 8 (length salt)
+    && hash_is_32 hash
   else if is_pbkdf2 alg then
-    keys_within [lit "i"; lit "l"] ps
+    forallb pbkdf2_param_ok ps
     && (match ver with None => true | Some _ => false end)
-    && N.eqb (dflt 32 (param (lit "l") ps)) 32
+    && (match dec_param (lit "l") ps with Some l => N.eqb l 32 && hash_is_32 hash | None => true end)
+    && Nat.leb 3 (length salt)
   else false.
 
-(* the KDF as a free term: what is fed to it, nothing else (defaults resolved as the crates do) *)
-Definition kdf_x (alg : bytes) (ver : option N) (ps : list (bytes * N)) (salt pw : bytes) : bytes :=
+(* the KDF as a free term: what is fed to it, nothing else (defaults resolved as the crates do; the associated
+   data of argon2 enters the hash, the key id does not) *)
+Definition kdf_x (alg : bytes) (ver : option N) (ps : list (bytes * bytes)) (salt pw : bytes) : bytes :=
   let norm :=
     if is_argon2 alg then
-      [dec (dflt 19 ver); dec (dflt 19456 (param (lit "m") ps)); dec (dflt 2 (param (lit "t") ps)); dec (dflt 1 (param (lit "p") ps))]
-    else [dec (dflt 600000 (param (lit "i") ps))] in
+      [dec (dflt 19 ver); dec (dflt 19456 (dec_param (lit "m") ps)); dec (dflt 2 (dec_param (lit "t") ps)); dec (dflt 1 (dec_param (lit "p") ps))]
+      ++ (match b64_param (lit "data") ps with [] => [] | d => [lit "data=" ++ hex d] end)
+    else [dec (dflt 600000 (dec_param (lit "i") ps))] in
   lit "KDF(" ++ join (lit "|") ([alg] ++ norm ++ [hex salt; hex pw]) ++ lit ")".
 
 Definition writer_context_x := writer_context bytes kdf_x kdf_valid_x phc_print_x.
